@@ -1,11 +1,11 @@
 package main
 
 import (
-	"os"
 	"fmt"
 	"go/ast"
 	"go/parser"
 	"go/token"
+	"os"
 	"sort"
 	"strconv"
 	"strings"
@@ -507,7 +507,16 @@ func checkGenCopy(r *Reporter, id string, fd *ast.FuncDecl, shape tmplShape, whe
 			return true
 		}
 		n++
-		if idn, ok := ast.Unparen(ret.Results[0]).(*ast.Ident); ok && idn.Name == ps[0] {
+		res := ast.Unparen(ret.Results[0])
+		// the argument itself, or a re-slice of it (a[:0] shares the backing array)
+		for {
+			if se, ok := res.(*ast.SliceExpr); ok {
+				res = ast.Unparen(se.X)
+				continue
+			}
+			break
+		}
+		if idn, ok := res.(*ast.Ident); ok && idn.Name == ps[0] {
 			bad = true
 		}
 		return true
